@@ -188,7 +188,7 @@ func cmdCheck(args []string) int {
 				continue
 			}
 			if k, isKF := matchKF(kfByObl, o.ID); isKF {
-				if strings.Contains(k.Obligation, "**") {
+				if strings.Contains(k.Obligation, "@@") {
 					// carve-out family: one line per listed finding
 					if o.Status != "unsat" {
 						kfFamily[k.Obligation]++
@@ -340,13 +340,13 @@ func cmdCheck(args []string) int {
 	return 0
 }
 
-// matchKF finds the known finding for an obligation id; a finding's obligation may contain one '**' wildcard.
+// matchKF finds the known finding for an obligation id; a finding's obligation may contain one '@@' wildcard.
 func matchKF(m map[string]KnownFinding, id string) (KnownFinding, bool) {
 	if k, ok := m[id]; ok {
 		return k, true
 	}
 	for pat, k := range m {
-		if i := strings.Index(pat, "**"); i >= 0 {
+		if i := strings.Index(pat, "@@"); i >= 0 {
 			if strings.HasPrefix(id, pat[:i]) && strings.HasSuffix(id, pat[i+2:]) && len(id) >= len(pat)-2 {
 				return k, true
 			}
